@@ -35,11 +35,17 @@ fn decision(v: u64) -> String {
 
 fn bad_list(r: &mut Rng, v: u64) -> (Vec<serde_json::Value>, &'static str) {
     let mut l = list(v);
-    let pos = r.below(l.len());
-    let (bad, kind) = match r.below(4) {
+    // anywhere, also behind the unconditional last rule; sometimes behind an extra unconditional rule in the middle
+    if r.chance(1, 3) {
+        let at = r.below(l.len());
+        l.insert(at, serde_json::json!({"target": "pad"}));
+    }
+    let pos = r.below(l.len() + 1);
+    let (bad, kind) = match r.below(5) {
         0 => (serde_json::json!({"filter": "request.listener == ", "target": "a0"}), "syntax error"),
         1 => (serde_json::json!({"filter": "request.target.port + 1", "target": "a0"}), "type error (not boolean)"),
         2 => (serde_json::json!({"filter": "request.nosuch == 1", "target": "a0"}), "type error (unknown field)"),
+        3 => (serde_json::json!({"filter": "request.target.port == 7", "target": "no-such-upstream"}), "unknown target"),
         _ => (serde_json::json!({"target": "no-such-upstream"}), "unknown target"),
     };
     l.insert(pos, bad);
